@@ -149,7 +149,41 @@ func (vc *VC) siteName(kind string) string {
 	return fmt.Sprintf("%s#%d", kind, vc.sites[kind])
 }
 
+var dbgSplit = os.Getenv("GOVC_SPLIT") != ""
+
+// conjuncts of a goal of the shape (=> A (and g1 g2 ...)) or (and g1 ...), for diagnosis.
+func goalConjuncts(goal string) []string {
+	pre := ""
+	g := goal
+	for strings.HasPrefix(g, "(=> ") {
+		parts := splitTop(g[4 : len(g)-1])
+		if len(parts) != 2 {
+			break
+		}
+		pre += "(=> " + parts[0] + " "
+		g = parts[1]
+	}
+	if !strings.HasPrefix(g, "(and ") {
+		return nil
+	}
+	var out []string
+	for _, p := range splitTop(g[5 : len(g)-1]) {
+		out = append(out, pre+p+strings.Repeat(")", strings.Count(pre, "(=> ")))
+	}
+	return out
+}
+
 func (vc *VC) oblige(name, kind, goal string, props []string, where, src string) *Oblig {
+	if dbgSplit && (kind == "inv.step" || kind == "inv.entry" || kind == "post" || kind == "pre") {
+		if cs := goalConjuncts(goal); len(cs) > 1 {
+			var last *Oblig
+			for i, c := range cs {
+				last = &Oblig{Name: fmt.Sprintf("%s/%s~c%d", vc.fn, name, i+1), Kind: kind, Goal: c, NLines: len(vc.lines), Props: props, Where: where, Func: vc.fn, Src: src, Blk: vc.curBlk}
+				vc.obls = append(vc.obls, last)
+			}
+			return last
+		}
+	}
 	o := &Oblig{Name: vc.fn + "/" + name, Kind: kind, Goal: goal, NLines: len(vc.lines), Props: props, Where: where, Func: vc.fn, Src: src, Blk: vc.curBlk}
 	vc.obls = append(vc.obls, o)
 	return o
